@@ -105,10 +105,10 @@ def exc_obs(e):
     return ("EXC", type(e).__name__, re.sub(r"\d+", "#", str(e))[:160])
 
 
-def eval_entity(q, world, inst, share_terms=False):
+def eval_entity(q, world, inst, share_terms=False, share_conds=False):
     """build and fully evaluate an entity query; returns list of result objects or ('EXC', ...)"""
     try:
-        obj, b = Q.build(q, world, inst, share_terms=share_terms)
+        obj, b = Q.build(q, world, inst, share_terms=share_terms, share_conds=share_conds)
         return list(obj.evaluate())
     except W.InjectedFault:
         raise
@@ -116,11 +116,11 @@ def eval_entity(q, world, inst, share_terms=False):
         return exc_obs(e)
 
 
-def eval_entity_after_partial(q, world, inst, share_terms=False, take=2):
+def eval_entity_after_partial(q, world, inst, share_terms=False, take=2, share_conds=False):
     """build an entity query; take `take` results of a FIRST evaluation and close the iterator, evaluate it fully, then
     once more; returns the two full results"""
     try:
-        obj, b = Q.build(q, world, inst, share_terms=share_terms)
+        obj, b = Q.build(q, world, inst, share_terms=share_terms, share_conds=share_conds)
         it = obj.evaluate()
         for _ in range(take):
             next(it, None)
